@@ -348,3 +348,27 @@ func toPiece(v value) piece {
 	}
 	panic(engineErr(fmt.Sprintf("toPiece %T", v)))
 }
+
+func init() {
+	// bytes.TrimSpace on symbolic bytes whose text provably neither starts nor ends with white space (a JSON document
+	// produced by Marshal; a concatenation whose outer pieces are literals): unchanged. Anything else is interpreted.
+	intrinsics["bytes.TrimSpace"] = func(fr *frame, a []value) value {
+		sb, ok := a[0].(symBytes)
+		if !ok {
+			return notHandled{}
+		}
+		if sb.str == nil && sb.tree != nil {
+			return sb
+		}
+		if ss, ok := sb.str.(symStr); ok {
+			if ps, known := strStruct[ss.t]; known && len(ps) > 0 {
+				first, last := ps[0], ps[len(ps)-1]
+				edge := func(c byte) bool { return c != ' ' && (c < 9 || c > 13) }
+				if !first.sym && !last.sym && len(first.s) > 0 && len(last.s) > 0 && edge(first.s[0]) && edge(last.s[len(last.s)-1]) {
+					return sb
+				}
+			}
+		}
+		panic(engineErr("bytes.TrimSpace of symbolic bytes with unknown edges"))
+	}
+}
